@@ -22,7 +22,6 @@ import (
 	"fmt"
 	"net"
 	"net/netip"
-	"os"
 	"strings"
 	"sync"
 	"time"
@@ -207,30 +206,14 @@ type vC20Stun struct {
 	reserved bool           // binding-success look-alike whose two most significant bits are not zero
 }
 
-// vC20ReservedKnown: the finding "a packet whose two most significant bits are
-// set is diverted as STUN" is excluded by construction when it is listed as
-// known (known_findings.txt sig, or VERIF_C20_KNOWN for scratch runs).
-const vC20SigReserved = "stun-reserved-bits"
-
-func vC20ReservedKnown() bool {
-	if vKnown(vC20SigReserved) {
-		return true
-	}
-	for _, k := range strings.Split(os.Getenv("VERIF_C20_KNOWN"), ",") {
-		if k == vC20SigReserved {
-			return true
-		}
-	}
-	return false
-}
-
 // vC20ClassifySTUN decides, from the bytes alone, whether a datagram is "a STUN
 // binding response" in the sense of the statement.
-//   must-pass   : not a STUN message, or a STUN message that is not a Binding response,
-//                 or a truncated one (declared length exceeds the datagram);
-//   may         : a Binding response the demux is allowed but not required to take
-//                 (error response, no/odd mapped address, trailing bytes, malformed attributes);
-//   must-divert : canonical Binding success response carrying a usable (XOR-)MAPPED-ADDRESS.
+//
+//	must-pass   : not a STUN message, or a STUN message that is not a Binding response,
+//	              or a truncated one (declared length exceeds the datagram);
+//	may         : a Binding response the demux is allowed but not required to take
+//	              (error response, no/odd mapped address, trailing bytes, malformed attributes);
+//	must-divert : canonical Binding success response carrying a usable (XOR-)MAPPED-ADDRESS.
 func vC20ClassifySTUN(b []byte) vC20Stun {
 	if len(b) < 20 || binary.BigEndian.Uint32(b[4:8]) != vC20Cookie {
 		return vC20Stun{verdict: vC20MustPass, label: "not-stun"}
@@ -759,9 +742,6 @@ func (e vC20Exp) String() string {
 func vC20Classify(idx int, p vC20Pkt, states []vC20Reg) vC20Exp {
 	e := vC20Exp{idx: idx, pkt: p, ids: map[string]bool{}}
 	e.stun = vC20ClassifySTUN(p.b)
-	if e.stun.reserved && vC20ReservedKnown() {
-		e.stun.verdict = vC20May
-	}
 	punchAny, punchAll := false, true
 	for _, reg := range states {
 		hit := false
